@@ -1,0 +1,315 @@
+//go:build verif
+
+// Contracts for govc (/verif): C05 validating any decodable transaction never crashes the node. Comment-only file.
+
+package common
+
+// ───────────── hypotheses ─────────────
+
+//@ spec InputsOK(tx *Transaction) bool = forall i int :: 0 <= i && i < len(tx.Inputs) ==> tx.Inputs[i] != nil
+//@ spec OutputsOK(tx *Transaction) bool = forall i int :: 0 <= i && i < len(tx.Outputs) ==> tx.Outputs[i] != nil
+
+// ───────────── script.go ─────────────
+
+//@ func (s Script) VerifyFormat
+//@   property C05
+//@   modifies nothing
+//@   ensures result == nil ==> len(s) == 3 && s[2] <= Operator64
+
+//@ func (s Script) Validate
+//@   property C05
+//@   modifies nothing
+
+//@ assume func (s Script) String
+//@   pure
+
+// ───────────── address.go ─────────────
+//@ -- Address.String: total; a function of the two public keys only (pure: used as a map key in the node and custodian validators)
+//@ func (a Address) String
+//@   property C05
+//@   pure
+
+// ───────────── transaction.go ─────────────
+
+//@ func (tx *SignedTransaction) TransactionType
+//@   property C05
+//@   requires tx != nil && InputsOK(&tx.Transaction) && OutputsOK(&tx.Transaction)
+//@   modifies nothing
+//@   ensures [mint] result == TransactionTypeMint ==> exists k int :: 0 <= k && k < len(tx.Inputs) && tx.Inputs[k].Mint != nil && (forall j int :: 0 <= j && j < k ==> PlainInput(tx.Inputs[j]))
+//@   ensures [deposit] result == TransactionTypeDeposit ==> exists k int :: 0 <= k && k < len(tx.Inputs) && tx.Inputs[k].Mint == nil && tx.Inputs[k].Deposit != nil && (forall j int :: 0 <= j && j < k ==> PlainInput(tx.Inputs[j]))
+//@   ensures [plain] result != TransactionTypeMint && result != TransactionTypeDeposit && result != TransactionTypeUnknown ==> PlainInputs(&tx.Transaction)
+//@   ensures [node] PlainInputs(&tx.Transaction) && len(tx.Outputs) >= 1 ==>
+//@       (tx.Outputs[0].Type == OutputTypeNodePledge ==> result == TransactionTypeNodePledge) &&
+//@       (tx.Outputs[0].Type == OutputTypeNodeAccept ==> result == TransactionTypeNodeAccept) &&
+//@       (tx.Outputs[0].Type == OutputTypeNodeRemove ==> result == TransactionTypeNodeRemove)
+//@   loop 0 invariant forall j int :: 0 <= j && j <= rangeindex ==> PlainInput(tx.Inputs[j])
+//@   loop 1 invariant PlainInputs(&tx.Transaction)
+//@   loop 1 invariant forall j int :: 0 <= j && j <= rangeindex ==> !NodeKind(tx.Outputs[j].Type)
+
+//@ spec NodeKind(t mathint) bool = t == OutputTypeNodePledge || t == OutputTypeNodeAccept || t == OutputTypeNodeRemove
+//@ spec PlainInput(in *Input) bool = in.Mint == nil && in.Deposit == nil && isnil(in.Genesis)
+//@ spec PlainInputs(tx *Transaction) bool = forall j int :: 0 <= j && j < len(tx.Inputs) ==> PlainInput(tx.Inputs[j])
+
+//@ -- Zero is assigned once (package initialisation, NewInteger(0)) and never written afterwards
+//@ axiom val(Zero) == 0
+
+// ───────────── integer.go (assumed: decimal / float parsing is out of subset) ─────────────
+
+//@ assume func NewIntegerFromString
+//@   modifies nothing
+//@   ensures val(v) >= 0
+//@   ensures x == ExtraStoragePriceStep ==> val(v) == 10000
+
+//@ assume func NewInteger
+//@   modifies nothing
+//@   ensures val(v) == x * 100000000
+
+//@ -- formatting of amounts for error messages: total (no panic for any value, including negative ones)
+//@ func (x Integer) String
+//@   property C05
+//@   modifies nothing
+
+// ───────────── validation.go ─────────────
+
+//@ func (tx *SignedTransaction) findStorageOutput
+//@   property C05
+//@   requires tx != nil && OutputsOK(&tx.Transaction)
+//@   modifies nothing
+//@   ensures result == nil || exists i int :: 0 <= i && i < len(tx.Outputs) && result == tx.Outputs[i]
+//@   loop 0 invariant so == nil || exists i int :: 0 <= i && i < len(tx.Outputs) && so == tx.Outputs[i]
+
+//@ func (tx *SignedTransaction) GetExtraLimit
+//@   property C05
+//@   requires tx != nil && OutputsOK(&tx.Transaction) && tx.Version >= TxVersionHashSignature
+//@   modifies nothing
+//@   ensures [bounds] ExtraSizeGeneralLimit <= result && result <= ExtraSizeStorageCapacity
+
+//@ func validateScriptTransaction
+//@   property C05
+//@   requires UtxoMapOK(inputs)
+//@   modifies nothing
+
+//@ spec UtxoMapOK(m map[string]*UTXO) bool = forall k string :: has(m, k) ==> m[k] != nil
+
+//@ -- validateAggregatedSigners: contract merged into zz_contracts_c06_verif.go (properties C06, C05)
+
+// ───────────── StoreInv: assumptions on what the DataStore returns (each clause is an assumption about the ledger state) ─────────────
+// The ledger is described by uninterpreted functions of the store value: which transactions exist, how many outputs they have and of which type.
+// They make the clause "a UTXO record agrees with output i of its transaction" expressible and say that these facts do not change during one Validate call.
+
+//@ uninterp LedgerHasTx(s any, h crypto.Hash) bool
+//@ uninterp LedgerOutCount(s any, h crypto.Hash) mathint
+//@ uninterp LedgerOutType(s any, h crypto.Hash, i mathint) mathint
+//@ uninterp CustodianGenesis(s any) mathint
+
+//@ spec CustodianKeysUnique(ns []*CustodianNode) bool = forall i, j int :: 0 <= i && i < j && j < len(ns) ==> ns[i].Custodian.String() != ns[j].Custodian.String()
+//@ spec KeysNonNil(ks []*crypto.Key) bool = forall k int :: 0 <= k && k < len(ks) ==> ks[k] != nil
+//@ spec NodeStateOK(st string) bool = st == NodeStatePledging || st == NodeStateAccepted || st == NodeStateRemoved || st == NodeStateCancelled
+//@ spec StoredTxOK(t *VersionedTransaction) bool = t.Version == TxVersionHashSignature && len(t.Inputs) >= 1 && len(t.Outputs) >= 1 &&
+//@     InputsOK(&t.Transaction) && OutputsOK(&t.Transaction) && (t.Outputs[0].Type == OutputTypeNodePledge ==> PlainInputs(&t.Transaction))
+
+//@ assume func (s UTXOLockReader) ReadUTXOLock(hash, index)
+//@   modifies nothing
+//@   ensures [S1-utxo-wf] err == nil && result0 != nil ==> val(result0.Amount) > 0 && KeysNonNil(result0.Keys)
+//@   ensures [S2-utxo-in-ledger] err == nil && result0 != nil ==> LedgerHasTx(recv, hash) && index < LedgerOutCount(recv, hash) && result0.Type == LedgerOutType(recv, hash, index)
+
+//@ assume func (s TransactionReader) ReadTransaction(hash)
+//@   modifies nothing
+//@   ensures [S3-tx-found] err == nil && LedgerHasTx(recv, hash) ==> result0 != nil
+//@   ensures [S4-tx-wf] err == nil && result0 != nil ==> StoredTxOK(result0)
+//@   ensures [S4b-tx-decoded] err == nil && result0 != nil ==> TxPayloadOK(&result0.SignedTransaction.Transaction) -- stored transactions were decoded from bytes (C06: DecodedTx)
+//@   ensures [S5-tx-ledger] err == nil && result0 != nil ==> len(result0.Outputs) == LedgerOutCount(recv, hash) &&
+//@       (forall i int :: 0 <= i && i < len(result0.Outputs) ==> result0.Outputs[i].Type == LedgerOutType(recv, hash, i))
+
+//@ assume func (s UTXOLockReader) ReadDepositLock(deposit)
+//@   modifies nothing
+//@ assume func (s UTXOLockReader) ReadLastMintDistribution(batch)
+//@   modifies nothing
+//@ assume func (s GhostLocker) LockGhostKeys(keys, tx, fork)
+//@   modifies nothing
+//@ assume func (s NodeReader) ReadAllNodes(offset, withState)
+//@   modifies nothing
+//@   ensures [S6-nodes] forall i int :: 0 <= i && i < len(result) ==> result[i] != nil && NodeStateOK(result[i].State)
+//@ assume func (s CustodianReader) ReadCustodian(ts)
+//@   modifies nothing
+//@   ensures [S7-custodian-exists] err == nil && ts >= CustodianGenesis(recv) ==> result0 != nil
+//@   ensures [S8-custodian-wf] err == nil && result0 != nil ==> result0.Custodian != nil && (forall i int :: 0 <= i && i < len(result0.Nodes) ==> result0.Nodes[i] != nil)
+//@   ensures [S10-custodian-unique] err == nil && result0 != nil ==> CustodianKeysUnique(result0.Nodes)
+//@ assume func (s AssetReader) ReadAssetWithBalance(id)
+//@   modifies nothing
+//@   ensures [S9-balance] err == nil && result0 != nil ==> val(result1) >= 0
+
+//@ func validateReferences
+//@   property C05
+//@   requires tx != nil && store != nil
+//@   modifies nothing
+
+//@ func validateUTXO
+//@   property C05
+//@   requires utxo != nil && keySigs != nil && 0 <= index && 0 <= offset
+//@   modifies keySigs[..]
+//@   ensures [nokeys] utxo.Type != OutputTypeScript && utxo.Type != OutputTypeNodeRemove ==> len(keySigs) == old(len(keySigs))
+//@   ensures [types] result == nil ==> utxo.Type == OutputTypeScript || utxo.Type == OutputTypeNodeRemove ||
+//@       (utxo.Type == OutputTypeNodePledge && (txType == TransactionTypeNodeAccept || txType == TransactionTypeNodeCancel)) ||
+//@       (utxo.Type == OutputTypeNodeAccept && txType == TransactionTypeNodeRemove)
+
+//@ spec InputKey(in *Input) string = fmt.Sprintf2("%s:%d", iface(in.Hash.String()), iface(in.Index))
+//@ spec InLedger(s any, in *Input) bool = LedgerHasTx(s, in.Hash) && 0 <= in.Index && in.Index < LedgerOutCount(s, in.Hash)
+//@ spec InputUtxoType(s any, in *Input) mathint = LedgerOutType(s, in.Hash, in.Index)
+//@ spec SignedType(t mathint) bool = t == OutputTypeScript || t == OutputTypeNodeRemove
+
+//@ func (tx *SignedTransaction) validateInputs
+//@   property C05
+//@   requires tx != nil && store != nil && InputsOK(&tx.Transaction)
+//@   modifies nothing
+//@   ensures [filter] UtxoMapOK(result0)
+//@   ensures [keys] err == nil && PlainInputs(&tx.Transaction) ==> forall i int :: 0 <= i && i < len(tx.Inputs) ==> has(result0, InputKey(tx.Inputs[i]))
+//@   ensures [ledger] err == nil && PlainInputs(&tx.Transaction) ==> forall i int :: 0 <= i && i < len(tx.Inputs) ==> InLedger(store, tx.Inputs[i])
+//@   ensures [signed] err == nil && PlainInputs(&tx.Transaction) && len(tx.Inputs) >= 1 && txType != TransactionTypeNodeAccept && txType != TransactionTypeNodeRemove ==>
+//@       exists i int :: 0 <= i && i < len(tx.Inputs) && SignedType(InputUtxoType(store, tx.Inputs[i]))
+//@   loop 0 invariant UtxoMapOK(inputsFilter) && val(inputAmount) >= 0 && fresh(allKeys)
+//@   loop 1 invariant (isnil(keys) || fresh(keys)) && (isnil(sigs) || fresh(sigs))
+//@   loop 0 invariant [haskey] forall k int :: 0 <= k && k <= rangeindex ==> has(inputsFilter, InputKey(tx.Inputs[k]))
+//@   loop 0 invariant [inledger] forall k int :: 0 <= k && k <= rangeindex ==> InLedger(store, tx.Inputs[k])
+//@   loop 0 invariant len(keySigs) > 0 ==> exists k int :: 0 <= k && k <= rangeindex && SignedType(InputUtxoType(store, tx.Inputs[k]))
+
+//@ -- OutKeysOld: the key arrays were allocated before the call (true of every object reachable from an argument; stated because the
+//@ -- engine otherwise cannot separate them from the slices the function allocates itself)
+//@ spec OutKeysOld(tx *Transaction) bool = forall i int :: 0 <= i && i < len(tx.Outputs) ==> !fresh(tx.Outputs[i].Keys)
+//@ spec OutKeysOK(tx *Transaction) bool = forall i int :: 0 <= i && i < len(tx.Outputs) ==> KeysNonNil(tx.Outputs[i].Keys)
+
+//@ -- validateOutputs: contract merged into zz_contracts_c04_verif.go (one contract per function; properties C04, C05)
+
+// ───────────── version.go: payload encoding (assumed total on decoded transactions; the proof belongs to C06) ─────────────
+//@ -- PayloadMarshal encodes ver.Transaction (EncodeTransaction has explicit panics on over-long fields) and, because config.Debug is the
+//@ -- constant true, re-decodes the result and panics on error. Both are total for a transaction that came out of the decoder (C06 round trip).
+//@ assume func (ver *VersionedTransaction) PayloadMarshal
+//@   requires ver != nil
+//@   modifies ver.pmbytes
+//@ assume func (ver *VersionedTransaction) PayloadHash
+//@   requires ver != nil
+//@   modifies ver.pmbytes, ver.hash
+
+// ───────────── DecodedTx: what DecodeTransaction guarantees for anything it returns (assumption here; proof obligation of C06) ─────────────
+//@ -- non-nil elements: ReadInput/ReadOutput return fresh objects or an error; Keys elements are `new(crypto.Key)`; counts are bounded by the decoder
+//@ -- (only the clauses that the sweep uses are listed)
+//@ spec DecodedShape(ver *VersionedTransaction) bool = InputsOK(&ver.Transaction) && OutputsOK(&ver.Transaction) && OutKeysOK(&ver.Transaction) && OutKeysOld(&ver.Transaction)
+
+//@ func (ver *VersionedTransaction) Validate
+//@   property C05
+//@   requires ver != nil && store != nil && DecodedShape(ver) && snapTime >= CustodianGenesis(store)
+//@   requires [decoded] DecodedTx(&ver.SignedTransaction) -- proved for every decoded transaction by C06 (unmarshalVersionedTransaction)
+//@   requires [preexisting] OutsOK(&ver.Transaction) -- objects reachable from the argument exist before the call (typing)
+//@   -- frame: Validate caches sizes/hashes inside ver (and, through validateNodeRemove, the hash cache of a store-returned
+//@   -- transaction, which no caller can observe). Assumed, not checked (noframe): used by the C31 batch loop.
+//@   modifies ver.hash, ver.pmbytes, ver.validatedSize
+//@   noframe
+
+// ───────────── type-specific validators ─────────────
+
+//@ func (tx *VersionedTransaction) validateMint
+//@   property C05
+//@   requires tx != nil && store != nil && InputsOK(&tx.Transaction) && OutputsOK(&tx.Transaction)
+//@   requires [payload-ok] TxPayloadOK(&tx.SignedTransaction.Transaction) -- PayloadHash (C06)
+//@   requires [mint-input] len(tx.Inputs) == 1 ==> tx.Inputs[0].Mint != nil
+//@   modifies tx.pmbytes, tx.hash
+
+//@ func GetAssetCapacity
+//@   property C05
+//@   modifies nothing
+//@   ensures val(result) >= 0
+
+//@ func (a *Asset) Verify
+//@   property C05
+//@   requires a != nil
+//@   modifies nothing
+
+//@ func (tx *Transaction) verifyDepositData
+//@   property C05
+//@   requires tx != nil && store != nil && len(tx.Inputs) >= 1 && tx.Inputs[0] != nil && tx.Inputs[0].Deposit != nil
+//@   modifies nothing
+
+//@ func (tx *SignedTransaction) validateDeposit
+//@   property C05
+//@   requires tx != nil && store != nil && InputsOK(&tx.Transaction) && OutputsOK(&tx.Transaction) && snapTime >= CustodianGenesis(store)
+//@   requires [deposit-input] len(tx.Inputs) == 1 ==> tx.Inputs[0].Deposit != nil
+//@   modifies nothing
+
+//@ func (tx *Transaction) validateWithdrawalSubmit
+//@   property C05
+//@   requires tx != nil && UtxoMapOK(inputs) && OutputsOK(tx) && len(tx.Outputs) >= 1
+//@   modifies nothing
+//@   loop 1 invariant rangeindex + 2 < len(tx.Outputs) ==> tx.Outputs[rangeindex + 2] != nil
+
+//@ func (tx *Transaction) validateWithdrawalClaim
+//@   property C05
+//@   requires tx != nil && store != nil && UtxoMapOK(inputs) && OutputsOK(tx) && len(tx.Outputs) >= 1 && snapTime >= CustodianGenesis(store)
+//@   modifies nothing
+//@   loop 1 invariant rangeindex + 2 < len(tx.Outputs) ==> tx.Outputs[rangeindex + 2] != nil
+
+//@ func (tx *Transaction) validateNodePledge
+//@   property C05
+//@   requires tx != nil && store != nil && InputsOK(tx) && UtxoMapOK(inputs)
+//@   requires [input-keys] forall i int :: 0 <= i && i < len(tx.Inputs) ==> has(inputs, InputKey(tx.Inputs[i]))
+//@   modifies nothing
+
+//@ func (tx *Transaction) NodeTransactionExtraAsSigner
+//@   property C05
+//@   requires tx != nil && tx.Version >= TxVersionHashSignature && InputsOK(tx) && OutputsOK(tx)
+//@   requires [node-type] PlainInputs(tx) && len(tx.Outputs) >= 1 &&
+//@       (tx.Outputs[0].Type == OutputTypeNodePledge || tx.Outputs[0].Type == OutputTypeNodeAccept || tx.Outputs[0].Type == OutputTypeNodeRemove)
+//@   modifies nothing
+//@   ensures result != nil
+
+//@ func (tx *Transaction) validateNodeAccept
+//@   property C05
+//@   requires tx != nil && store != nil && InputsOK(tx)
+//@   requires [inputs-in-ledger] forall i int :: 0 <= i && i < len(tx.Inputs) ==> InLedger(store, tx.Inputs[i])
+//@   modifies nothing
+
+//@ -- no `modifies`: accept.PayloadHash() fills the hash cache of the transaction object returned by the store (inferred frame is used by the caller)
+//@ func (tx *Transaction) validateNodeRemove
+//@   property C05
+//@   requires tx != nil && store != nil && InputsOK(tx)
+//@   requires [inputs-in-ledger] forall i int :: 0 <= i && i < len(tx.Inputs) ==> InLedger(store, tx.Inputs[i])
+
+//@ func (tx *Transaction) validateNodeCancel
+//@   property C05
+//@   requires tx != nil && store != nil && InputsOK(tx) && OutputsOK(tx) && OutKeysOK(tx)
+//@   requires [inputs-in-ledger] forall i int :: 0 <= i && i < len(tx.Inputs) ==> InLedger(store, tx.Inputs[i])
+//@   requires [signed-input] len(tx.Inputs) == 1 ==> SignedType(InputUtxoType(store, tx.Inputs[0]))
+//@   modifies nothing
+
+// ───────────── custodian.go ─────────────
+
+//@ func (cn *CustodianNode) validate
+//@   property C05
+//@   requires cn != nil && len(cn.Extra) == custodianNodeExtraSize
+//@   modifies nothing
+
+//@ func parseCustodianNode
+//@   property C05
+//@   modifies nothing
+//@   ensures err == nil ==> result0 != nil
+
+//@ func ParseCustodianUpdateNodesExtra$1
+//@   property C05
+//@   requires (forall k int :: 0 <= k && k < len(nodes) ==> nodes[k] != nil) && 0 <= i && i < len(nodes) && 0 <= j && j < len(nodes)
+//@   pure
+//@   ensures result <==> lexlt(nodes[i].Custodian.PublicSpendKey, nodes[j].Custodian.PublicSpendKey)
+
+//@ func ParseCustodianUpdateNodesExtra
+//@   property C05
+//@   modifies nothing
+//@   ensures [ok] err == nil ==> result0 != nil && result0.Custodian != nil && result0.Signature != nil && len(extra) >= 64 + custodianNodeExtraSize * custodianNodesMinimumCount + 64 &&
+//@       (forall k int :: 0 <= k && k < len(result0.Nodes) ==> result0.Nodes[k] != nil)
+//@   loop 0 invariant forall k int :: 0 <= k && k <= rangeindex ==> nodes[k] != nil
+//@   loop 1 invariant isnil(sortedExtra) || fresh(sortedExtra)
+
+//@ func (tx *Transaction) validateCustodianUpdateNodes
+//@   property C05
+//@   requires tx != nil && store != nil && OutputsOK(tx)
+//@   modifies nothing
+//@   loop 0 invariant len(filter) == rangeindex + 1
+//@   loop 0 invariant forall j int :: rangeindex < j && j < len(prev.Nodes) ==> !has(filter, prev.Nodes[j].Custodian.String())
+//@   loop 1 invariant val(total) >= 0
